@@ -221,7 +221,9 @@ class SequenceContainer(common.Parseable, common.XmlObject):
         -------
         : ElementTree.Element
         """
-        containers = tree.getroot().find("TelemetryMetaData/ContainerSet").findall(f"SequenceContainer[@name='{name}']")
+        # Compare the name attribute directly: a name may hold characters with a meaning in an XPath expression
+        containers = [sc for sc in tree.getroot().find("TelemetryMetaData/ContainerSet").findall("SequenceContainer")
+                      if sc.attrib.get("name") == name]
         if len(containers) != 1:
             raise ValueError(f"Found {len(containers)} matching container_set with name {name}. "
                              f"Container names are expected to exist and be unique.")
